@@ -260,9 +260,11 @@ Qed.
 Ltac enabled t := eapply trans_can_step; eapply t; unfold t_ann, t_achk_panic, t_achk_busy, t_achk_ok, t_afail, t_apush, t_hquit, t_hb, t_hc, t_kinit, t_kquit,
     t_ktake, t_kabort, t_kupd, t_kpush, t_kchk, t_jsusp, t_jres, t_sclose, t_swait, t_sdb, quit.
 
-Lemma no_deadlock_running c s : cfg_ok c -> reachable c s -> spc s = Sidle -> can_step c s \/ idle s.
+(* stated for every state of the invariant (Sched/HandshakeRetryProofs.v uses it for states of the system with
+   retry waits, whose base component satisfies [Inv] without being reachable here) *)
+Lemma no_deadlock_running_inv c s : cfg_ok c -> Inv c s -> spc s = Sidle -> can_step c s \/ idle s.
 Proof.
-  intros Hc Hr Hs. pose proof (reachable_inv c s Hc Hr) as HI. destruct Hc as [Hc1 Hc2]. destruct HI.
+  intros Hc HI Hs. destruct Hc as [Hc1 Hc2]. destruct HI.
   unfold quit in *. rewrite Hs in *.
   destruct (e_stop s) eqn:Est.
   { left. enabled tr_sclose. rewrite Hs, Est. reflexivity. }
@@ -297,6 +299,9 @@ Proof.
     + left. destruct (after_res p n) as [k fin] eqn:Ea. enabled tr_jres. rewrite Eh, Ek, Ea. reflexivity.
   - exfalso. specialize (inv_hdone0 eq_refl). discriminate.
 Qed.
+
+Lemma no_deadlock_running c s : cfg_ok c -> reachable c s -> spc s = Sidle -> can_step c s \/ idle s.
+Proof. intros Hc Hr. apply no_deadlock_running_inv; [exact Hc | apply reachable_inv; assumption]. Qed.
 
 (* every maximal run of the running system (no Stop) ends with both loops parked, every
    announced block processed, every accepted task finished, none dropped, none aborted *)
@@ -336,10 +341,10 @@ Qed.
 
 (* ---------------------------------------------------------------- Stop, repaired protocol *)
 
-Lemma stuck_after_stop_is_stopped c s :
-  cfg_ok c -> f1fix c = true -> reachable c s -> stop_requested s -> stuck c s -> stopped s.
+Lemma stuck_after_stop_is_stopped_inv c s :
+  cfg_ok c -> f1fix c = true -> Inv c s -> stop_requested s -> stuck c s -> stopped s.
 Proof.
-  intros Hc Hf Hr Hreq Hst. pose proof (reachable_inv c s Hc Hr) as HI. destruct HI.
+  intros Hc Hf HI Hreq Hst. destruct HI.
   unfold stop_requested, stopped in *. unfold quit in *.
   assert (Hno : forall l s', ~ trans c s l s') by (intros l s' H; apply trans_can_step in H; contradiction).
   destruct (spc s) eqn:Es; [contradiction| | |reflexivity].
@@ -365,6 +370,10 @@ Proof.
       * eapply Hno. eapply tr_swait. unfold t_swait. rewrite Es, Eh, Ek. reflexivity.
   - exfalso. eapply Hno. eapply tr_sdb. unfold t_sdb. rewrite Es. reflexivity.
 Qed.
+
+Lemma stuck_after_stop_is_stopped c s :
+  cfg_ok c -> f1fix c = true -> reachable c s -> stop_requested s -> stuck c s -> stopped s.
+Proof. intros Hc Hf Hr. apply stuck_after_stop_is_stopped_inv; [exact Hc | exact Hf | apply reachable_inv; assumption]. Qed.
 
 Definition stop_coming (s : state) : Prop := e_stop s = true \/ spc s <> Sidle.
 
